@@ -486,11 +486,15 @@ def sp_linalg_norm(x, *a, **kw):
 
 def allclose(a, b, rtol=1e-5, atol=1e-8, **kw):
     if has_sym(a) or has_sym(b):
-        # symbolic: exact equality on every entry (stricter than allclose)
+        # numpy's definition, elementwise: |a-b| <= atol + rtol*|b|
         aa, bb = _np.broadcast_arrays(_np.asarray(a, dtype=object),
                                       _np.asarray(b, dtype=object))
-        return all_(_np.array([x == y for x, y in zip(aa.flat, bb.flat)],
-                              dtype=object))
+        conds = []
+        for x, y in zip(aa.flat, bb.flat):
+            x = x if isinstance(x, Q) else Q(x)
+            y = y if isinstance(y, Q) else Q(y)
+            conds.append(abs(x-y) <= Q(atol)+Q(rtol)*abs(y))
+        return all_(_np.array(conds, dtype=object))
     return _np.allclose(a, b, rtol=rtol, atol=atol, **kw)
 
 
@@ -587,20 +591,54 @@ def _sindg(x):
 
 
 def _trig(x):
-    """cos/sin (degrees) of a symbolic angle: fresh pair with c^2+s^2=1."""
+    """cos/sin (degrees) of a symbolic angle: a pair (c, s) with c^2+s^2=1
+    per base angle; base + k*90 is derived from the base pair."""
     c = C.ctx()
-    key = ('trig', z3.simplify(x.t).get_id())
+    e = z3.simplify(x.t)
+    base, k = e, 0
+    if z3.is_add(e) and e.num_args() == 2 and \
+            z3.is_rational_value(e.arg(0)):
+        q = Fraction(e.arg(0).as_fraction().numerator,
+                     e.arg(0).as_fraction().denominator)/90
+        if q.denominator == 1:
+            base, k = e.arg(1), int(q)
+    key = ('trig', base.get_id())
     hit = c.recips.get(key)
     if hit is None:
         co, si = c.fresh('cos'), c.fresh('sin')
-        c.keep.append(z3.simplify(x.t))
+        c.keep.append(base)
         c.side.append(co*co+si*si == 1)
         c._feas = None
-        c.recips[key] = (x.t, (co, si))
+        c.recips[key] = (base, (co, si))
     else:
         co, si = hit[1]
-    return Q(co), Q(si)
+    co, si = Q(co), Q(si)
+    for _ in range(k % 4):
+        co, si = -si, co
+    return co, si
 
+
+def angle(z, deg=False):
+    """np.angle of a symbolic complex number: a fresh angle theta whose
+    cos/sin pair satisfies c*r = re, s*r = im with r = |z|."""
+    if not isinstance(z, (Q, Qc)):
+        return _np.angle(z, deg=deg)
+    if not deg:
+        raise TypeError("symx: np.angle only in degrees")
+    z = Qc._co(z)
+    c = C.ctx()
+    r = C.sqrt(z.re*z.re+z.im*z.im)
+    th = c.fresh('angle')
+    co, si = c.fresh('cos'), c.fresh('sin')
+    c.keep.append(th)
+    c.side.append(z3.And(co*co+si*si == 1, co*C.qt(r) == C.qt(z.re),
+                         si*C.qt(r) == C.qt(z.im), th > -180, th <= 180))
+    c._feas = None
+    c.recips[('trig', th.get_id())] = (th, (co, si))
+    return Q(th)
+
+
+object.__setattr__(symnp, 'angle', angle)
 
 _sp_linalg = _Namespace(_sp.linalg, dict(norm=sp_linalg_norm))
 _sp_special = _Namespace(_sp.special, dict(cosdg=_cosdg, sindg=_sindg))
